@@ -34,6 +34,12 @@ def frames(prop):
          r'self\.status\.set\(\s*IncrStatus::RunningOnUpdateHandlers\s*\)', r'\.run_on_update_handlers\(',
          r'self\.status\.set\(\s*IncrStatus::NotStabilising\s*\)'], impl='impl State'))
 
+    add({'C13', 'C07', 'C10'}, lambda: F.body_is(
+        'frame/Observer::value-reads-through-try_get_value', 'src/public.rs', 'value',
+        r'self\.internal\.try_get_value\(\)\.unwrap\(\)', impl='impl<T: Value> Observer<T>'))
+    add({'C13', 'C07', 'C10'}, lambda: F.body_is(
+        'frame/Observer::try_get_value-forwards-to-the-shared-observer', 'src/public.rs', 'try_get_value',
+        r'self\.internal\.try_get_value\(\)', impl='impl<T: Value> Observer<T>'))
     # -- observer lifecycle ----------------------------------------------------------------------------------
     add({'C10', 'C07', 'C05'}, lambda: F.only_in(
         'frame/observers-become-InUse-only-in-add_new_observers', r'\.set\(\s*(ObserverState::)?InUse\s*\)',
